@@ -24,21 +24,41 @@ pub fn sound_elf32_le() {
 }
 #[kani::proof]
 #[kani::unwind(8)]
-pub fn complete_elf64_nb1_nl1_n2() {
-    gnu_complete::<1, 1, 2, 1>(Class::ELF64);
+pub fn complete_elf64_nb1_nl1_n2_present() {
+    gnu_complete::<1, 1, 2, 1>(Class::ELF64, false);
 }
 #[kani::proof]
 #[kani::unwind(8)]
-pub fn complete_elf32_nb2_nl1_n3() {
-    gnu_complete::<2, 1, 3, 1>(Class::ELF32);
+pub fn complete_elf64_nb1_nl1_n2_absent() {
+    gnu_complete::<1, 1, 2, 1>(Class::ELF64, true);
 }
 #[kani::proof]
 #[kani::unwind(8)]
-pub fn complete_elf64_nb2_nl2_n2() {
-    gnu_complete::<2, 2, 2, 2>(Class::ELF64);
+pub fn complete_elf32_nb2_nl1_n3_present() {
+    gnu_complete::<2, 1, 3, 1>(Class::ELF32, false);
 }
 #[kani::proof]
 #[kani::unwind(8)]
-pub fn complete_elf32_nb3_nl2_n3() {
-    gnu_complete::<3, 2, 3, 2>(Class::ELF32);
+pub fn complete_elf32_nb2_nl1_n3_absent() {
+    gnu_complete::<2, 1, 3, 1>(Class::ELF32, true);
+}
+#[kani::proof]
+#[kani::unwind(8)]
+pub fn complete_elf64_nb2_nl2_n2_present() {
+    gnu_complete::<2, 2, 2, 2>(Class::ELF64, false);
+}
+#[kani::proof]
+#[kani::unwind(8)]
+pub fn complete_elf64_nb2_nl2_n2_absent() {
+    gnu_complete::<2, 2, 2, 2>(Class::ELF64, true);
+}
+#[kani::proof]
+#[kani::unwind(8)]
+pub fn complete_elf32_nb3_nl2_n3_present() {
+    gnu_complete::<3, 2, 3, 2>(Class::ELF32, false);
+}
+#[kani::proof]
+#[kani::unwind(8)]
+pub fn complete_elf32_nb3_nl2_n3_absent() {
+    gnu_complete::<3, 2, 3, 2>(Class::ELF32, true);
 }
